@@ -156,7 +156,7 @@ def run(ctx):
     # (I) spinful configs
     cfgs = c03.configs(rnd, "quick")[1:]
     nev = 2 if quick else 4
-    for tag, cfg, M0, mf in cfgs:
+    for tag, cfg, M0, mf, _tree in [c for c in cfgs if c[4] is None]:
         p4 = ampkit.gen_events(M0, mf, nev, rnd.randrange(10 ** 6))
         metamorphic(ctx, rnd, tag, cfg, p4, cases)
         ctx.sample({"config_tag": tag, "decay": cfg["decay"]}, cap=8)
